@@ -403,6 +403,12 @@ def check_tree(ctx, u, lab, m):
                 if c.get('kind') == 'CXXMemberCallExpr' and call_name(c) in ('emplace_back', 'push_back') and call_args(c) and canon(call_args(c)[0]) == 'this.root':
                     seeds += 1
                     ctx.check(root_nonnull_at(c), R, '%s|%s|queue-seeded-with-root' % (lab, nm), c, 'root is known non-null where it is enqueued', '%s enqueues this->root without a null test and then dereferences it: an empty tree crashes' % nm)
+            # a work queue constructed with the root in it (`deque<Node*> q({root})`, `q{root}`, `q(1, root)`)
+            for v_ in walk(body_of(f)):
+                if v_.get('kind') == 'VarDecl' and kids(v_) and (dtype(v_) or '').replace('const ', '').startswith(('std::deque<', 'std::vector<', 'std::queue<', 'std::stack<', 'std::list<')) and \
+                   any(y_.get('kind') == 'MemberExpr' and canon(y_) == 'this.root' for y_ in walk(kids(v_)[-1])):
+                    seeds += 1
+                    ctx.check(root_nonnull_at(v_), R, '%s|%s|queue-seeded-with-root' % (lab, nm), v_, 'root is known non-null where the queue is built from it', '%s builds its work queue from this->root without a null test and then dereferences every queued node: an empty tree crashes' % nm)
             # for (Node* n = root; <test>; )
             for lp_ in walk(body_of(f)):
                 if lp_.get('kind') == 'ForStmt':
@@ -572,14 +578,24 @@ def _check_r5(ctx, u, lab, m, ln, dn, calls):
             slot = _pn(nf(x['inner'][0]))
             if enclosing(x, LOOPS) is not None:
                 continue      # the re-homing inside the replacement loop, judged by R2
-            eqs = set()
+            eqs, neqs = set(), set()
             for n_, pol_ in atoms(path_facts(x)):
                 r_ = relation(n_, pol_)
                 if r_ and r_[1] == '==':
                     eqs.add(tuple(sorted((_pn(nf(r_[0])), _pn(nf(r_[2]))))))
+                elif r_ and r_[1] == '!=':
+                    neqs.add(tuple(sorted((_pn(nf(r_[0])), _pn(nf(r_[2]))))))
                 elif r_ is None and not pol_:
                     eqs.add(tuple(sorted((_pn(nf(n_)), 'nullptr'))))       # `!p`  ==  p == nullptr
-            seen_slots[slot] = tuple(sorted(want_slots[slot])) in eqs
+                elif r_ is None and pol_:
+                    neqs.add(tuple(sorted((_pn(nf(n_)), 'nullptr'))))
+            okslot = tuple(sorted(want_slots[slot])) in eqs
+            # a node that has a parent is one of its two children (link_node is the only place that sets
+            # `parent`): "has a parent and is not the other child" identifies the slot as well
+            other_ = {'n.parent.before': 'n.parent.after_or_equal', 'n.parent.after_or_equal': 'n.parent.before'}.get(slot)
+            if not okslot and other_ is not None and tuple(sorted(('n', other_))) in neqs and tuple(sorted(('n.parent', 'nullptr'))) in neqs:
+                okslot = True
+            seen_slots[slot] = okslot
     oku = set(seen_slots) == set(want_slots) and all(seen_slots.values())
     ctx.check(oku, R, lab + '|delete_node|unlink-from-parent', dn, 'the parent slot that holds the node is cleared (root if there is no parent)',
               'unlink-from-parent changed: %s' % {k_: ('cleared under the right test' if v_ else 'cleared without the test that the slot holds the node') for k_, v_ in seen_slots.items()} + (' / never cleared: %s' % sorted(set(want_slots) - set(seen_slots)) if set(want_slots) - set(seen_slots) else ''))
